@@ -14,8 +14,11 @@ prop = rep.get('property') or fid.split('-')[1]
 path = '/verif/known_findings.json'
 d = json.load(open(path))
 assert all(f['id'] != fid for f in d['findings']), 'duplicate id'
-d['findings'].append(dict(id=fid, property=prop, status='fixed', commit=commit, what=what,
-                          line='fixed: property=%s %s %s' % (prop, commit, what),
-                          witness=dict(kind=case['kind'], params=case['params'])))
+entry = dict(id=fid, property=prop, status='fixed', commit=commit, what=what,
+             line='fixed: property=%s %s %s' % (prop, commit, what),
+             witness=dict(kind=case['kind'], params=case['params']))
+if rep.get('config') == 'python -O':
+    entry['config'] = 'python -O'      # the witness is replayed in an interpreter started with -O
+d['findings'].append(entry)
 json.dump(d, open(path, 'w'), indent=1)
 print('added', fid, prop, commit)
